@@ -106,6 +106,20 @@ CLAIMED["C11"] = dict(
     ref="DESIGN.md section 2 (C11) and section 3",
     technique="TLC model checking of transcribed index guards + sanitizer-observed replay of TLC-generated scenarios, values judged by TLC trace validation")
 
+CLAIMED["C12"] = dict(
+    text="FJInt.tla defines unbounded integers on byte limbs (floor division/modulo, arithmetic shifts, bitwise operators on infinite two's "
+         "complement, power, bit length); FJExpr.tla defines Eval, the assembler's three evaluation stages (constants at parse, parameters at "
+         "expansion, labels at the end; every all-literal node folded) and Render = fewest parentheses the precedence/associativity table allows. "
+         "TLC enumerates every tree of nine shapes (each operator, ALL ordered operator pairs in both nestings, unary mixes, ternaries) over operand "
+         "values incl. negatives and >64-bit numbers, checks Staged = Eval as an invariant, and emits tokens, identifier tagging (literal/constant/"
+         "parameter/label) and value; the harness renders sources (decimal/hex/binary/char notations rotate; plus character escapes, \\xHH and "
+         "little-endian strings), assembles them with the real assembler and reads the values back through probe statements; error trees must raise.",
+    note="Trusted: FJInt/FJExpr as the definition of unbounded-integer arithmetic and of the precedence table (taken from the grammar; no separate "
+         "documentation exists); the probe slicing (>>, &, ==, #) is itself part of what is pinned. Bounded: trees with <=2 binary operators, 6-8 operand values, "
+         "shift counts <=300, exponents <=6, results below 2^304.",
+    ref="DESIGN.md section 2 (C12)",
+    technique="TLA+ arithmetic/evaluation spec + TLC exhaustive enumeration of expression trees (stage-independence invariant) + spec->code replay through the real assembler")
+
 NOT_YET = {}
 
 
